@@ -261,7 +261,8 @@ pub fn check_alloc_reader(ri: usize, input: &[u8], scratch_len: usize, l: &mut L
     let (res, m) = crate::alloc::measure_limited(ALLOC_CEILING, || no_panic(|| (r.run)(input, &mut scratch)));
     clear_pending();
     let accepted = res.map_err(|p| fail("alloc", format!("decoding {} panicked: {}", r.name, p), cj()))?;
-    let bound = ALLOC_FACTOR * r.elem.max(1) * (input.len() + scratch_len + 8);
+    // (+ a fixed allowance: a small constant pre-allocation is not what the statement is about)
+    let bound = ALLOC_FACTOR * r.elem.max(1) * (input.len() + scratch_len + 8) + ALLOC_SLACK;
     if m.bytes > bound {
         return Err(fail(
             "alloc",
@@ -307,6 +308,8 @@ fn reals() -> Vec<Real> {
 }
 
 pub const ALLOC_FACTOR: usize = 64;
+/// fixed allowance added to every allocation bound
+pub const ALLOC_SLACK: usize = 4096;
 /// a decode that asks for more than this in total is cut off (allocation refused -> abort -> reported with the pending case)
 pub const ALLOC_CEILING: usize = 1 << 30;
 
@@ -319,12 +322,12 @@ pub fn check_alloc(ri: usize, input: &[u8], l: &mut Local) -> CaseResult {
     let (res, m) = crate::alloc::measure_limited(ALLOC_CEILING, || no_panic(|| (r.run)(input)));
     clear_pending();
     let accepted = res.map_err(|p| fail("alloc", format!("decoding {} panicked: {}", r.name, p), cj()))?;
-    let bound = ALLOC_FACTOR * r.elem.max(1) * (input.len() + 8);
+    let bound = ALLOC_FACTOR * r.elem.max(1) * (input.len() + 8) + ALLOC_SLACK;
     if m.bytes > bound {
         return Err(fail(
             "alloc",
             format!(
-                "decoding {} bytes as {} requested {} bytes from the allocator (largest single request {}), bound {} = {}*{}*(len+8)",
+                "decoding {} bytes as {} requested {} bytes from the allocator (largest single request {}), bound {} = {}*{}*(len+8) + 4096",
                 input.len(), r.name, m.bytes, m.largest, bound, ALLOC_FACTOR, r.elem.max(1)
             ),
             cj(),
@@ -462,7 +465,7 @@ pub fn run(ctx: &Ctx) {
          at either end, and through from_io with a guard-paged scratch buffer; 20 real collection types under a counting allocator \
          with adversarial claimed lengths, from slices and (11 of them) through from_io / from_eio with small scratch buffers; 7 types that ask for deserialize_any / identifier / ignored_any. oracle: Ok or Err (no \
          panic, no fault), agreement with the reference decoder, borrowed items exactly at their encoded input offsets (inside the \
-         scratch for readers), bytes requested <= 64*max(size_of Elem,1)*(len+8) (readers: len+scratch+8), any/identifier/ignored requests answered with an error. non-trivial = rejected input, \
+         scratch for readers), bytes requested <= 64*max(size_of Elem,1)*(len+8) + 4096 (readers: len+scratch+8), any/identifier/ignored requests answered with an error. non-trivial = rejected input, \
          accepted input with a borrowed field, or adversarial length; distinct = hash(type, input)",
     );
     ctx.assume("allocation bound evaluated for strings, byte buffers and sequences of non-zero-width elements decoded from slices (maps and zero-width elements are outside the statement)");
